@@ -602,5 +602,5 @@ def unused_cfg(ctx, k):
 def scheme_cfg(ctx, k):
     cfg = gen.ModelCfg(p_prefix_names=0.5)
     cfg.depth = 2 + (k % 2)
-    cfg.expr = gen.ExprCfg(p_floor=0.01, p_mod=0.01)
+    cfg.expr = gen.ExprCfg(p_floor=0.01, p_mod=0.01, p_idiom=0.2)
     return cfg
